@@ -22,7 +22,7 @@ def N():
 
 def payload_symbols(n):
     return ['{', '}', '[', ']', '$', '$$', '\\', '%', '\\begin{%s}' % n.e, '\\end{%s}' % n.e, '\\end{equation}', '\\item',
-            '\\)', '\\]', '\\' + n.x, n.a, n.sp]
+            '\\)', '\\]', '\\' + n.x, n.a, n.sp, '\\%s{%s}' % (n.x, n.a)]
 
 
 def contexts(n):
@@ -77,6 +77,17 @@ def check_case(acc, case):
         if cnt != names.get(name, 0):
             acc.violation('payload-searchable', dict(c, name=name), names.get(name, 0), cnt, size)
             return
+    if k % 2 == 0:
+        # a full-expression query for text that occurs only inside the payload finds nothing either
+        for q in ('\\%s{%s}' % (n.x, n.a), '\\begin{%s}' % n.e if case['ctx'] != 'env' else '\\begin{zz}'):
+            try:
+                cnt, fnd = soup.count(q), len(soup.find_all(q))
+            except Exception as e:
+                acc.violation('search-raises', dict(c, name=q), 0, egram.exc_repr(e), size)
+                return
+            if cnt != 0 or fnd != 0:
+                acc.violation('payload-searchable', dict(c, name=q), 0, [cnt, fnd], size)
+                return
     acc.ok(hash(src), cls='comment' if k % 2 == 0 else 'escaped-percent')
     if acc.evals % 2003 == 1:
         acc.sample(src)
